@@ -7,6 +7,9 @@
 #   C07_RESP_NB_FIXED       respond.c resp0_ctx_send tests btrace_len before it calls nni_aio_start
 #   C07_RESP_WBUSY_FIXED    respond.c resp0_ctx_recv raises writable only for an idle pipe
 #   C07_RESP_RCLOSE_FIXED   respond.c resp0_pipe_close clears readable
+#   C07_RESP_SBUSY_FIXED    respond.c resp0_ctx_send tests ctx->saio != NULL (second send while one is queued)
+#   C07_RESP_WOTHER_FIXED   respond.c resp0_ctx_send looks at s->ctx.pipe_id (clears writable for another context's send)
+#   C07_RESP_WSTALE_FIXED   respond.c the two receive paths clear writable when the new survey's pipe is busy
 #   C07_MSGQ_NB_FIXED       msgqueue.c nni_msgq_aio_get/put do not start with nni_aio_start
 #   C07_MSGQ_RESIZE_FIXED   msgqueue.c nni_msgq_resize runs the put and get queues afterwards
 _S = "src/sp/protocol/survey0/"
@@ -116,6 +119,15 @@ extra_text.append("Definition C07_RESP_WBUSY_FIXED : bool := %s.  (* respond.c r
 _cb = _body(_S + "respond.c", "resp0_pipe_close")
 extra_text.append("Definition C07_RESP_RCLOSE_FIXED : bool := %s.  (* respond.c resp0_pipe_close clears the readable pollable *)"
                   % ("true" if "nni_pollable_clear(&s->readable)" in _cb else "false"))
+
+extra_text.append("Definition C07_RESP_SBUSY_FIXED : bool := %s.  (* respond.c resp0_ctx_send refuses a send while ctx->saio is still queued *)"
+                  % ("true" if re.search(r"ctx->saio\s*!=\s*NULL", _sb) else "false"))
+extra_text.append("Definition C07_RESP_WOTHER_FIXED : bool := %s.  (* respond.c resp0_ctx_send clears writable when it makes the socket context's pipe busy *)"
+                  % ("true" if re.search(r"s->ctx\.pipe_id", _sb) else "false"))
+
+_rcb = _body(_S + "respond.c", "resp0_pipe_recv_cb")
+extra_text.append("Definition C07_RESP_WSTALE_FIXED : bool := %s.  (* respond.c resp0_ctx_recv and resp0_pipe_recv_cb clear writable when the new survey's pipe is busy *)"
+                  % ("true" if ("nni_pollable_clear(&s->writable)" in _rb and "nni_pollable_clear(&s->writable)" in _rcb) else "false"))
 
 # msgqueue.c: the raw sockets' entry points
 _gb = _body("src/core/msgqueue.c", "nni_msgq_aio_get")
